@@ -106,7 +106,7 @@ def claimed_promise(ctx, db, rid):
                 ret = [it for it in tr if it.k == 'return' and it.get('depth') == 0]
                 if win is not False:
                     bad = bad or ('a path neither starts the coroutine nor saw a lost claim', tr)
-                elif ret and ret[-1].get('const') != 0 and ret[-1].get('path') not in ('nullptr', 'ctor(nullptr)', '{}'):
+                elif ret and ret[-1].get('const') != 0 and re.sub(r'^(?:ctor\(|move\()+|\)+$', '', resolve_select(ret[-1].get('path') or '', tr) or '') not in ('nullptr', '{}', '', '0'):
                     bad = bad or ('a lost claim does not report null', tr)
         if started == 0 or refused == 0:
             bad = bad or ('start_promise lost its started/refused outcomes', trs[0] if trs else [])
